@@ -87,6 +87,12 @@ def Cfg.stackOp (c : Cfg) : Option Spec.Op :=
   | .afterSetup _ :: _ => if c.retSetup then none else some .discard
   | _ => none
 
+/-- the stack recorded by the newest stack operation of a trace (newest first); empty if there is none -/
+def lastStack : List Tr → List Entry
+  | [] => []
+  | .stackOp _ s :: _ => s
+  | _ :: l => lastStack l
+
 /-- a machine step out of `c` ending in `c'`: continuing or halting the run -/
 def StepTo (P : Prog) (c c' : Cfg) : Prop :=
   step P c = .ok c' ∨ ∃ o, step P c = .error (o, c')
